@@ -2,11 +2,13 @@
 REG = {}
 
 REG["C24"] = dict(
-    level_text='Proof for every uint64 value and every parameter list: Append/Len/AppendWithLen/Read mirror internal/quicvarint with explicit shifts and narrowing; round trip, minimality, exact width and refusal by panic above 2^62 are theorems by case analysis on the width (no enumeration); TransportParameters.Marshal parses back entry by entry for any list. Tied to the code by byte-exact correspondence on boundary and random values on every run.',
+    level_text='Proof for every uint64 value and every parameter list: Append/Len/AppendWithLen/Read mirror internal/quicvarint with explicit shifts and narrowing, with and without a non-empty destination buffer; round trip, minimality, exact width and refusal by panic above 2^62 are theorems by case analysis on the width (no enumeration); TransportParameters.Marshal parses back entry by entry for any list. Tied to the code by byte-exact correspondence on boundary and random values on every run.',
     runner="C24", corr=["Corr.C24Corr"], n=dict(quick=300, thorough=6000),
     rule="boundary values (0,63,64,16383,16384,2^30+-1,2^62+-1,2^64-1) plus random values of random bit width; "
-         "AppendWithLen over widths {1,2,4,8} and one invalid width; Read on random/truncated byte strings; random "
-         "parameter lists over all 17 parameter types. A case is distinct by (op,input); non-trivial when it reaches a "
+         "AppendWithLen over widths {1,2,4,8} and one invalid width; Append and AppendWithLen both onto nil and onto buffers "
+         "that already hold 1..6 bytes (with and without spare capacity; caller's bytes must survive, in the result and in "
+         "place); Read on random/truncated byte strings; random parameter lists over all 17 parameter types with repeated "
+         "parameters/ids. A case is distinct by (op,input); non-trivial when it reaches a "
          "multi-byte encoding / non-panicking AppendWithLen / successful Read / non-empty non-panicking Marshal.",
     trusted_base=["verif_export.go accessors for internal/quicvarint"],
     assumes=["uint64 inputs modelled as N below 2^64; len(Value()) < 2^62"],
@@ -28,7 +30,11 @@ REG["C30"] = dict(
     rule="random 32-byte seeds; SHAKE256 stream computed independently (x/crypto/sha3) and handed to the model; calls "
          "Intn/Int63n/Range/FlipWeightedCoin/Perm with boundary arguments (0,1,2^31-1,2^31,2^62,2^63-1,negative, +-0.0,1.0, "
          "nextafter values, NaN, +-Inf) and random ones, starting 0..3 words into the stream; each case also pins the next "
-         "8 stream bytes. Distinct by (call,args,seed); non-trivial when n>1 / max>lo / 0<w<1 / perm n>2.",
+         "8 stream bytes. Salted PRNGs: per seed a family of ~15-25 salts of 0..1000 arbitrary bytes that are pairwise close "
+         "(one byte changed at the end/front/middle, one byte more or less, trailing zero bytes, common prefixes of 31/32/33/64/len "
+         "bytes with different tails, the salt doubled, \"ALPS\", empty): equal salts <-> equal first 32 stream bytes, all different "
+         "from the unsalted stream (Go-side oracle on every pair, Coq-side oracle on a sample of short pairs). "
+         "Distinct by (call,args,seed); non-trivial when n>1 / max>lo / 0<w<1 / perm n>2.",
     trusted_base=["verif_export.go VerifPRNG wrapper", "x/crypto/sha3 SHAKE256 (stream recomputation)",
                   "IEEE-754 float64 laws as Section hypotheses (monotone rounding; 0,1,2^63,2^-63 representable); executable rne validated against Go"],
     assumes=["streams long enough that rejection loops end within the fuel (64 redraws)",
